@@ -126,8 +126,11 @@ func (c *genCtx) intExpr(d int) node {
 		cc.self = nil
 		cc.labels, cc.inLoop = nil, 0
 		return nCall(nFn(strict(p), "", cc.stmts(d-1, 1+c.r.intn(2))...), c.arg().intExpr(d-1))
-	case n < 92 && c.w.data > 0:
+	case n < 90 && c.w.data > 0:
 		return c.dataExpr(d)
+	case n < 92 && c.w.data > 0:
+		a := c.arg()
+		return nApp("len", nSq(tqList(tqAtom(nSym("q")), tqUnq(a.intExpr(d-1)), tqSplice(nApp("list", a.intExpr(d-1), a.intExpr(d-1))), tqArr(tqUnq(a.intExpr(d-1))))))
 	case n < 95:
 		if len(c.vars) > 0 {
 			return node{pick(c.r, []string{"def", "set"}), pick(c.r, c.vars), c.intExpr(d - 1)}
@@ -555,7 +558,9 @@ func enumShapes(depth int) []node {
 			}
 			out = append(out,
 				nAnd(a, b), nOr(a, b), nBegin(a, b), nScope(a, b),
-				nLet("let", []bind{{"x", a}}, b), nLet("letseq", []bind{{"x", a}}, b))
+				nLet("let", []bind{{"x", a}}, b), nLet("letseq", []bind{{"x", a}}, b),
+				nApp("first", nSq(tqList(tqUnq(a), tqAtom(nSym("q")), tqUnq(b)))),
+				nApp("len", nSq(tqArr(tqSplice(nApp("list", a)), tqUnq(b)))))
 		}
 	}
 	for _, t := range leafOnly {
